@@ -19,6 +19,7 @@ RULE = (
     "GaussianDBALScorer.score on real plates with shipped and a harness-defined heteroscedastic Theta, max_chunk 1..7; plus re-grouping, "
     "experiment and sample permutations. Non-trivial = >=2 plates of different sizes (padding exercised) or a size-1 plate. distinct = distinct case JSON."
     ' Also: one call whose padded work array has 34 million entries (thorough: three).'
+    ' Every scorer object also receives a call that fails part-way (distance matrix of another size) before it is used again.'
 )
 ASSUMPTIONS = [
     "plates have >=1 experiment; means bounded so no single term overflows (finiteness is claimed only when some triple has positive distance)",
@@ -324,6 +325,23 @@ def check_case(case):
         require(sorted(int(k) for k in got) == sorted(plates), "scorer.keys", lambda: "scored plate ids %r, candidates %r" % (sorted(int(k) for k in got), sorted(plates)))
         for k, v in got.items():
             require(_close(float(v), ref[int(k)]), "scorer.equals_direct", lambda: "plate %d: scorer(max_chunk=%d) %r, direct estimator %r" % (int(k), mc, float(v), ref[int(k)]))
+    # a call that fails part-way (the distance matrix of another run, for fewer posterior samples) on each of these scorer objects,
+    # widest plates first; whatever it raises, the object is used again afterwards and must score as before
+    counts = {}
+    if n >= 4:
+        cdm_small = ChunkedDistanceMatrix(size=n - 1)
+        for i in range(n - 1):
+            for j in range(i):
+                cdm_small.add_value(i, j, d[i, j])
+        for mc, scorer in sorted(_scorers.items()):
+            try:
+                scorer.score(plates={k: plates[k] for k in by_size_desc}, distance_matrix=cdm_small, samples=holder, rng=np.random.default_rng(12), progress_bar=False)
+                counts["mismatched_call_returned"] = counts.get("mismatched_call_returned", 0) + 1
+            except Exception:
+                counts["mismatched_call_raised"] = counts.get("mismatched_call_raised", 0) + 1
+            got = scorer.score(plates={k: plates[k] for k in sorted(plates, key=lambda k_: int(plates[k_].size))}, distance_matrix=cdm, samples=holder, rng=np.random.default_rng(13), progress_bar=False)
+            for k, v in got.items():
+                require(_close(float(v), ref[int(k)]), "scorer.after_failed_call", lambda: "plate %d: the scorer object (max_chunk=%d), used again after a call that failed, gives %r; direct estimator %r" % (int(k), mc, float(v), ref[int(k)]))
     # the same scorer objects, another distance matrix (the next round of a simulation): scores follow the new matrix
     d2 = d[::-1, ::-1].copy() * 1.5 + (1.0 - np.eye(n)) * 0.25
     cdm2 = ChunkedDistanceMatrix(size=n)
@@ -355,4 +373,4 @@ def check_case(case):
                 require(_close(float(v), cref[int(k)]), "scorer.overlapping_subsets", lambda: "subset %d (a plate combined with the already selected plate %d, so the scored subsets overlap; max_chunk=%d): scorer %r, direct estimator on its own rows %r" % (int(k), batch_key, mc, float(v), cref[int(k)]))
     sizes = [int(p.size) for p in plates.values()]
     labels = ["scorer", "het" if case["het"] else "homo", "chunked" if case["max_chunk"] < len(plates) else "one-chunk"]
-    return {"nontrivial": len(set(sizes)) > 1 or 1 in sizes, "labels": labels}
+    return {"nontrivial": len(set(sizes)) > 1 or 1 in sizes, "labels": labels, "counts": counts}
